@@ -172,6 +172,13 @@ func (g *Gen) doAlloc(st *BState, in *ssa.Alloc) {
 	case *types.Struct:
 		g.assume(st, fmt.Sprintf("(= (rtype %s) %d)", n, g.eng.typeTag(t)))
 		g.zeroInitStruct(st, n, t)
+		if typeKey(t) == "bytes.Buffer" {
+			if gs, ok := g.eng.ghosts["BufContent"]; ok {
+				// a zero bytes.Buffer is empty
+				g.declareSpecFn("bempty")
+				g.assume(st, fmt.Sprintf("(= (select %s %s) bempty)", g.heapGet(st.heap, g.ghostRegion("BufContent", g.eng.specSort(gs))), n))
+			}
+		}
 	case *types.Array:
 		// backing array in the elem region
 		r := g.elemRegion(u.Elem())
